@@ -736,8 +736,12 @@ class SQLiteDialect_pysqlite(SQLiteDialect):
             # as it is normally non-present we deliver floor() unconditionally
             # for now.
             # https://www.sqlite.org/lang_mathfunc.html
+            def floor(value: Any) -> Any:
+                # SQL functions return NULL for a NULL argument
+                return None if value is None else math.floor(value)
+
             dbapi_connection.create_function(
-                "floor", 1, math.floor, **create_func_kw
+                "floor", 1, floor, **create_func_kw
             )
 
         fns = [set_regexp, floor_func]
